@@ -356,6 +356,26 @@ Proof.
     + apply in_map_iff in Hit. destruct Hit as [x [E _]]. subst. discriminate.
 Qed.
 
+(* JustAttributes reports a diagnostic iff some VISIBLE block exists, and then
+   it names the first one (holds for every hidden set, i.e. for remainders) *)
+Lemma native_just_attrs_diag (b : nbody) :
+  snd (njust_attrs b) = match vis_blocks b with
+                        | [] => []
+                        | ex :: _ => [(UnexpectedBlock, btype ex)]
+                        end.
+Proof. reflexivity. Qed.
+
+Lemma native_just_attrs_exact : just_attrs_exact (native_impl V).
+Proof.
+  intros b _ _. cbn [b_just_attrs native_impl items]. rewrite native_just_attrs_diag.
+  unfold nitems. destruct (vis_blocks b) as [|ex r] eqn:E.
+  - split; [|reflexivity]. intros _ it Hit. cbn [map] in Hit. rewrite app_nil_r in Hit.
+    apply in_map_iff in Hit. destruct Hit as [a [Ea _]]. subst. discriminate.
+  - split; [discriminate|]. intro H. exfalso.
+    apply (H (item_of_block ex)); [|reflexivity].
+    apply in_app_iff. right. cbn [map]. left. reflexivity.
+Qed.
+
 Theorem native_lawful : Lawful (native_impl V).
 Proof.
   constructor.
@@ -369,20 +389,10 @@ Qed.
 
 End NativeProofs.
 
-(* ---- a law that does NOT hold: JustAttributes on a remaining body ------------
-   spec.md: "the new body can then be recursively processed using any of the
-   body processing models"; dynamic-attributes processing "behaves as if a
-   schema had been constructed without any block header schemata and with an
-   attribute schema for each distinct key".  If every visible item of a body
-   is an attribute, JustAttributes should therefore succeed.  The native body
-   reports the blocks that an earlier PartialContent already consumed
-   (structure.go:252 tests len(b.Blocks), not the visible ones). *)
-Definition just_attrs_total_on_attr_bodies {V B} (I : BodyImpl V B) : Prop :=
-  forall b, wf I b ->
-    (forall it, In it (items I b) -> iattr it <> None) ->
-    NoDup (map aname (all_attrs (items I b))) ->
-    snd (b_just_attrs I b) = [].
-
+(* ---- the former finding, now a law: JustAttributes on a remaining body --------
+   Native body "a = 1; blk {}", PartialContent with schema {blk}: the block is
+   returned; every visible item of the remainder is an attribute, Content {a}
+   on it is clean, and (since hclsyntax fix 14e64b3) so is JustAttributes. *)
 Local Open Scope string_scope.
 Definition ja_witness_body : nbody unit :=
   {| nattrs := [{| aname := "a"; aval := tt |}];
@@ -391,29 +401,12 @@ Definition ja_witness_body : nbody unit :=
 Definition ja_witness_schema : schema := {| sattrs := []; sblocks := [("blk", 0)] |}.
 Local Close Scope string_scope.
 
-Theorem native_just_attrs_remain_refuted :
+Lemma native_just_attrs_remain_clean :
   let '(c, r, d) := npartial ja_witness_schema ja_witness_body in
   nwf ja_witness_body /\ d = [] /\ List.length (cblocks c) = 1%nat /\
-  (forall it, In it (nitems r) -> iattr it <> None) /\
   snd (ncontent {| sattrs := [("a"%string, false)]; sblocks := [] |} r) = [] /\
-  snd (njust_attrs r) = [(UnexpectedBlock, "blk"%string)].
+  njust_attrs r = ([{| aname := "a"%string; aval := tt |}], []).
 Proof.
-  cbn. split; [|split; [reflexivity|split; [reflexivity|split; [|split; reflexivity]]]].
-  - unfold nwf. cbn. constructor; [intros []|constructor].
-  - intros it [H|[]]. subst. discriminate.
-Qed.
-
-Corollary native_just_attrs_total_refuted :
-  ~ just_attrs_total_on_attr_bodies (native_impl unit).
-Proof.
-  intro H.
-  set (r := {| nattrs := [{| aname := "a"%string; aval := tt |}];
-               nblocks := [{| btype := "blk"%string; blabels := []; bbody := tt |}];
-               nhA := []; nhB := ["blk"%string] |}).
-  assert (snd (b_just_attrs (native_impl unit) r) = []) as X.
-  { apply H.
-    - cbn. unfold nwf. cbn. constructor; [intros []|constructor].
-    - cbn. intros it [Hit|[]]. subst. discriminate.
-    - cbn. constructor; [intros []|constructor]. }
-  cbn in X. discriminate.
+  cbn. split; [|repeat split; reflexivity].
+  unfold nwf. cbn. constructor; [intros []|constructor].
 Qed.
